@@ -487,6 +487,7 @@ func (p *Project) WithSelectedServices(names []string, options ...DependencyOpti
 
 	// Disable all services which are not explicit target or dependencies
 	enabled := Services{}
+	var unselected []string
 	for name, s := range newProject.Services {
 		if _, ok := set[name]; ok {
 			// remove all dependencies but those implied by explicitly selected services
@@ -499,9 +500,13 @@ func (p *Project) WithSelectedServices(names []string, options ...DependencyOpti
 			s.DependsOn = dependencies
 			enabled[name] = s
 		} else {
-			newProject = newProject.WithServicesDisabled(name)
+			unselected = append(unselected, name)
 		}
 	}
+	// disable in a fixed order: WithServicesDisabled prunes the dependencies of the services
+	// still enabled at that point, so the result must not depend on map iteration order
+	sort.Strings(unselected)
+	newProject = newProject.WithServicesDisabled(unselected...)
 	newProject.Services = enabled
 	return newProject, nil
 }
